@@ -58,7 +58,8 @@ func (s *SetWithTTL[T]) Contains(e T) bool {
 	if !ok {
 		return false
 	}
-	return item.After(s.Clock.Now())
+	// an item stays a member through its expiry instant, exactly as cleanup (and MapWithTTL) treat it
+	return !item.Before(s.Clock.Now())
 }
 
 func (s *SetWithTTL[T]) cleanup() int {
